@@ -238,6 +238,15 @@ class ProductDomain(Domain):
         self, n=None, d=None, params=Points.empty(), device="cpu"
     ):
         if n is not None:
+            if not self._is_constant and len(params) > 1:
+                # the selection below keeps a random number of points per parameter
+                # row, so every row gets its own n points
+                points = self.sample_random_uniform(n=n, params=params[0:1,], device=device)
+                for i in range(1, len(params)):
+                    points = points | self.sample_random_uniform(
+                        n=n, params=params[i : i + 1,], device=device
+                    )
+                return points
             if self._is_constant:  # we use all sampled b values
                 n_, new_params = self._repeat_params(n, params)
                 b_points = self.domain_b.sample_random_uniform(
